@@ -99,6 +99,8 @@ def scn_line(i, sc, sched, aux=0):
         i, mode, kind, tp, alg, res, loc, cto, dto, ue, blk, rot, aux)
     if ips:
         s += " ips=" + ips_str(ips)
+    if i % 2 and kind == "conn":
+        s += " ka=%d" % (1 + i % 9)         # tcp keepalive / user time-out values of the connect map
     if sched:
         s += " sched=" + sched
     return s
@@ -164,7 +166,7 @@ def extra_scenarios(T, rnd):
 
 # ---------------------------------------------------------------------- execution -------
 BLANK = {"x": 0, "n": 999, "ev": "crash", "op": "", "ret": 0, "err": 0, "t": 0, "rd": -1, "w": 0, "nb": 0, "sys": [],
-         "acc": 0, "src": 0, "dat": 0, "hg": 0, "un": 0, "sc": []}
+         "acc": 0, "src": 0, "dat": 0, "hg": 0, "un": 0, "sc": [], "opt": []}
 
 
 RX = re.compile(r'^\{"x":(\d+),"n":\d+,"ev":"(\w+)"')
@@ -418,6 +420,62 @@ def records_of(d, xs):
     return out
 
 
+def c11_part(pid, tier, seed):
+    """For C11 (accepted attribute values are in force): connections that come out of a multi-address connect - a name
+    that resolves to addresses of both families, earlier addresses refusing / silent / unreachable, every dns.algorithm,
+    TCP option values given in the connect map or left at their defaults - recorded by the C13 harness and validated
+    against TConnectTrace; the C11.* verdicts (reported = configured, reported = what the kernel has on the connection's
+    descriptor) are returned.  -> (violations, statistics)"""
+    rnd = random.Random(seed * 7 + 11)
+    binary = vlib.build(["tconn_exec"])[0]
+    lines = []
+    n = 160 if tier == "quick" else 1600
+    for k in range(n):
+        nips = rnd.choice((2, 2, 3, 4, 6))
+        first = rnd.choice((4, 6))
+        ips = [[first if j == 0 else (10 - first if j == nips - 1 else rnd.choice((4, 6))), rnd.choice((2, 2, 4, 3))]
+               for j in range(nips)]
+        ips[-1][1] = 1
+        if rnd.random() < 0.3:
+            ips[rnd.randrange(nips)][1] = 1
+        if sum(1 for p_ in ips if p_[1] == 3) > 1:
+            for p_ in ips[1:-1]:
+                p_[1] = 2 if p_[1] == 3 else p_[1]
+        sc = ["vt", "conn", rnd.choice(("tcp", "btcp")), rnd.choice(("sequential", "sequential", "happy", "single", "none")),
+              rnd.choice(("sync", "later")), rnd.choice(("none", "none", "none", "v4", "v6")), rnd.choice((150, 300)), 300,
+              rnd.choice((101, 113)), rnd.choice((0, 0, 0, 1)), rnd.randrange(3), ips]
+        lines.append(scn_line(len(lines) + 1, sc, "c,auto"))
+    by_id = {int(ln.split()[0]): ln for ln in lines}
+    d, allv, stats, crashes, nrec, tv_states, skipped = execute_and_validate(binary, lines, "%s_tconn_%s" % (pid, tier),
+                                                                                4 if tier == "quick" else 8, 25)
+    with_opts = 0
+    for r in records_of(d, by_id.keys()).values():
+        with_opts += sum(1 for x in r if x["ev"] == "end" and len(x.get("opt", [])) == 15)
+    if with_opts < n // 4:
+        raise InternalError("vacuous multi-address connect run for %s: %d of %d executions ended with a connection whose "
+                            "options were read (%s)" % (pid, with_opts, n, stats))
+    unsettled = set(v["x"] for v in allv if v["tag"] == "INCONCLUSIVE")
+    classes = collections.defaultdict(list)
+    for v in allv:
+        if v["tag"].startswith("C11.") and v["x"] not in unsettled:
+            kv = dict(t.split("=", 1) for t in by_id[v["x"]].split()[1:])
+            classes["%s/%s" % (v["tag"], kv["alg"])].append((len(by_id[v["x"]]), v["x"], v))
+    violations = []
+    for key in sorted(classes):
+        items = sorted(classes[key])
+        _, x, v = items[0]
+        text = "%s in: %s; expected %s, observed %s" % (v["tag"], describe(by_id[x]), json.dumps(v["exp"])[:200],
+                                                       json.dumps(v["obs"])[:200])
+        body = "# %s\n# class %s: %d executions in this run; the smallest scenarios follow\n" \
+               "# replay: bin/check %s --replay <this file>\n%s\n" % (text, key, len(items), pid,
+                                                                      "\n".join(by_id[i] for _, i, _ in items[:5]))
+        rp = vlib.save_replay(pid, re.sub(r"[^A-Za-z0-9_.-]+", "_", key.replace("C11.", "tconn_")) + ".scn", body)
+        violations.append(("conformance", "%s [%d executions]" % (text, len(items)), rp))
+    return violations, dict(multi_address_connects=len(lines), connections_with_kernel_options_read=with_opts,
+                            records=nrec, trace_validation_states=tv_states, crashes=len(crashes),
+                            mismatch_classes={k: len(v) for k, v in classes.items()})
+
+
 def check(pid, tier, seed, as_c05=False, as_c04=False):
     """as_c05: run for property C05 (non-blocking sockets never sleep): the same scenarios (a smaller sample), but the
     C05.wait records are the verdicts and (violations, known, coverage) is returned instead of written as evidence"""
@@ -653,7 +711,7 @@ def replay(pid, path):
         vl, _stat, _r = validate(trace, n)
         by_id = {int(ln.split()[0]): ln for ln in vt}
         for v in vl:
-            is13 = v["tag"].startswith("C13.")
+            is13 = v["tag"].startswith(pid + ".")
             print("MISMATCH" if is13 else "note", v["tag"], "step", v["n"], "of:", describe(by_id[v["x"]]), "; expected",
                   json.dumps(v["exp"])[:200], "observed", json.dumps(v["obs"])[:300])
             if is13:
